@@ -102,9 +102,34 @@ pub fn run(tier: Tier, seed: u64) -> i32 {
                     }
                 }
             }
+            // (1b) data of the wrong size: either refused, or a card on which every lookup still works (never a card that
+            //      panics on a coordinate it claims to have); the accessors return what was given
+            for wrong in [0usize, 1, (cells * d as usize).saturating_sub(1), cells * d as usize + 1, cells * d as usize + d as usize] {
+                if wrong == cells * d as usize {
+                    continue;
+                }
+                let data = card_data(1, cells + 2, d as usize, seed)[..wrong].to_vec();
+                match catch(|| MatrixCard::from_data(d, h, w, data)) {
+                    Err(m) => viol(&report, "from_data-panic", json!({"w": w, "h": h, "digits": d, "data_len": wrong}), format!("from_data panicked on {wrong} bytes: {m}")),
+                    Ok(None) => {}
+                    Ok(Some(card)) => {
+                        for y in 0..h {
+                            for x in 0..w {
+                                if let Err(m) = catch(|| card.get_number_at_coordinates(x, y).to_vec()) {
+                                    viol(&report, "lookup-panic-on-accepted-short-data", json!({"w": w, "h": h, "digits": d, "data_len": wrong, "x": x, "y": y}), format!("from_data accepted {wrong} bytes for a {w}x{h}x{d} card and the lookup of ({x},{y}) panics: {m}"));
+                                }
+                            }
+                        }
+                    }
+                }
+                coord_cases.fetch_add(1, Ordering::Relaxed);
+            }
             // (2) rounds and (3) proofs
             let data = card_data(3, cells, d as usize, seed);
             let card = MatrixCard::from_data(d, h, w, data).unwrap();
+            if card.digit_count() != d || card.width() != w || card.height() != h {
+                viol(&report, "accessors", json!({"w": w, "h": h, "digits": d}), format!("accessors return {}x{}x{}", card.width(), card.height(), card.digit_count()));
+            }
             let mut counts: Vec<u8> = vec![1, 2, 3, (cells.saturating_sub(1)).max(1) as u8, cells as u8];
             counts.retain(|c| *c as usize <= cells && *c >= 1);
             counts.sort();
